@@ -1061,9 +1061,11 @@ impl Model {
         };
         let Ok(asset) = trace.parse::<Denom>() else { return };
         let aid = asset_id(&asset);
+        self.probes.push("ibc.refund.applied");
         if let Ok(memo) = serde_json::from_str::<astria_core::protocol::memos::v1::Ics20WithdrawalFromRollup>(&data.memo) {
             match self.bridges.get(&receiver) {
                 Some(b) if b.asset == aid => {
+                    self.probes.push("ibc.refund.applied.to-bridge-with-deposit");
                     self.block_deposits.push(Deposit {
                         bridge_address: crate::test_utils::astria_address(&receiver),
                         rollup_id: astria_core::primitive::v1::RollupId::new(b.rollup),
